@@ -1297,7 +1297,123 @@ pub fn run(ctx: &mut Ctx) {
     ctx.assume("The dialer legitimately completes once it has sent message 3; faults confined to message 3 are only required to fail the listener.");
     ctx.assume("The rogue peer uses litep2p's own snow CryptoResolver (x25519/ChaChaPoly/SHA256) through a re-export hook; only its identity payload is adversarial.");
     ctx.assume("The dialed-peer sub-check uses real 127.0.0.1 TCP sockets in a normal (unpaused) current-thread runtime; its outcome does not depend on timing (timeouts 20 s, never reached).");
+    dialed_through_the_stack(ctx);
     ctx.assume("weak_key_universal_sig (small-order ed25519 key whose fixed signature verifies for any message under non-strict verification) is recorded as information only: nobody holds such a key, the statement is silent.");
+}
+
+// ---------------------------------------------------------------------------------------------------------
+// (h) dialed-peer expectation through the whole stack: real Litep2p nodes, real TcpTransport (E4)
+// ---------------------------------------------------------------------------------------------------------
+
+/// `Litep2p::dial(peer)` (manager -> `Transport::open` -> `negotiate`) and `Litep2p::dial_address(addr/p2p/peer)`
+/// (`Transport::dial`) towards an address at which a node with ANOTHER identity completes a perfectly valid
+/// handshake: exactly one `DialFailure`, never a connection; the honest dial yields the connection to the proven id.
+fn dialed_through_the_stack(ctx: &mut Ctx) {
+    use crate::env::simnet::{NodeCmd, NodeLog, World};
+    use litep2p::config::ConfigBuilder;
+    #[derive(Clone, Copy, Debug)]
+    enum How {
+        ByPeerId,
+        ByAddress,
+    }
+    for (how, honest) in [(How::ByPeerId, false), (How::ByAddress, false), (How::ByPeerId, true), (How::ByAddress, true)] {
+        let result = std::thread::spawn(move || -> Result<String, (String, String)> {
+            let rt = crate::env::driver::runtime_io(7);
+            let r = catch_unwind(AssertUnwindSafe(|| {
+                rt.block_on(async {
+                    let (_park_tx, park_rx) = std::sync::mpsc::channel::<()>();
+                    let _parked = tokio::task::spawn_blocking(move || {
+                        let _ = park_rx.recv();
+                    });
+                    let mut w = World::new();
+                    let mk = || ConfigBuilder::new().with_keep_alive_timeout(std::time::Duration::from_secs(100_000));
+                    let l = w.add_tcp_node(41, mk()).expect("tcp node");
+                    let r = w.add_tcp_node(42, mk()).expect("tcp node");
+                    async fn settle(w: &mut World) {
+                        loop {
+                            w.run_to_quiescence(1_000_000);
+                            if !crate::mc::e2::settle_io(w).await {
+                                break;
+                            }
+                        }
+                    }
+                    settle(&mut w).await;
+                    let peer_r = w.nodes[r].peer;
+                    let other = util::peer(4242);
+                    let target = if honest { peer_r } else { other };
+                    let addr_r = w.nodes[r].address.clone();
+                    let bare: multiaddr::Multiaddr = addr_r.iter().filter(|p| !matches!(p, multiaddr::Protocol::P2p(_))).collect();
+                    let claimed = bare.with(multiaddr::Protocol::P2p(target.into()));
+                    match how {
+                        How::ByPeerId => {
+                            let _ = w.nodes[l].cmd.send(NodeCmd::AddKnown(target, claimed));
+                            settle(&mut w).await;
+                            let _ = w.nodes[l].cmd.send(NodeCmd::Dial(target));
+                        }
+                        How::ByAddress => {
+                            let _ = w.nodes[l].cmd.send(NodeCmd::DialAddress(claimed));
+                        }
+                    }
+                    // the handshake, and then whatever timeouts there are
+                    for _ in 0..4 {
+                        settle(&mut w).await;
+                        tokio::time::advance(std::time::Duration::from_secs(10)).await;
+                    }
+                    settle(&mut w).await;
+                    let log: Vec<NodeLog> = w.nodes[l].log.lock().clone();
+                    let short: Vec<String> = log
+                        .iter()
+                        .map(|e| match e {
+                            NodeLog::Event(s) => s.chars().take(160).collect(),
+                            NodeLog::DialResult(_, r) => format!("dial() -> {r:?}"),
+                        })
+                        .collect();
+                    let established: Vec<&String> = short.iter().filter(|s| s.starts_with("ConnectionEstablished")).collect();
+                    // the node log holds the manager's own events: a failed `dial_address` ends as DialFailure, a failed dial by
+                    // peer id (several addresses may be tried) as OpenFailure
+                    let failures = short.iter().filter(|s| s.starts_with("DialFailure") || s.starts_with("OpenFailure")).count();
+                    let desc = format!("{how:?} target={} (listener proves {peer_r}); dialer log {short:?}", if honest { "listener's id" } else { "another id" });
+                    if honest {
+                        if established.len() != 1 || !established[0].contains(&peer_r.to_string()) || failures != 0 {
+                            return Err(("stack/honest-dial-failed".to_string(), desc));
+                        }
+                    } else {
+                        if !established.is_empty() {
+                            return Err(("stack/mismatch-accepted".to_string(), format!("a connection was reported although the listener proved a different identity than the one dialed; {desc}")));
+                        }
+                        if failures != 1 {
+                            return Err((
+                                "stack/mismatch-not-reported".to_string(),
+                                format!("dialing an identity the listener cannot prove must end in exactly one dial failure event, saw {failures}; {desc}"),
+                            ));
+                        }
+                    }
+                    Ok(desc)
+                })
+            }));
+            match r {
+                Ok(x) => x,
+                Err(_) => {
+                    let msg = take_panic();
+                    Err((format!("panic/{}", panic_site(&msg)), format!("{how:?} honest={honest}: panic while dialing: {msg}")))
+                }
+            }
+        })
+        .join();
+        let replay = json!({"kind": "dialed-through-the-stack", "how": format!("{how:?}"), "honest": honest});
+        match result {
+            Ok(Ok(desc)) => {
+                ctx.cov_add("evaluations", 1);
+                ctx.cov_add("dialed_through_the_stack_runs", 1);
+                if !honest && matches!(how, How::ByPeerId) {
+                    ctx.sample(json!({"case": replay, "observed": desc.chars().take(600).collect::<String>()}));
+                }
+            }
+            Ok(Err((sig, what))) => ctx.violation(Violation { signature: sig, what, replay }),
+            Err(_) => ctx.machinery_error("dialed-through-the-stack: harness thread panicked outside the guarded region"),
+        }
+    }
+    ctx.assume("Sub-check (h) runs two real Litep2p nodes with the real TcpTransport over loopback in a paused current-thread runtime (auto-advance inhibited), one deterministic execution per (dial API, honest/mismatching target).");
 }
 
 pub fn replay(case: &Value) -> Result<String, String> {
